@@ -120,6 +120,15 @@ def gen_c17(r, tier):
                             'argv': ['verify', inp, 'hand.tdda']
                             + gen_verify_flags(r),
                             'input': inp, 'cs': 'hand.tdda'})
+            if fmt == 'csv' and r.chance(0.3):
+                # the table arrives on standard input
+                a = ops[-1]['argv']
+                a[1] = '-'
+                ops[-1]['stdin'] = True
+                if '--epsilon' not in a and r.chance(0.6):
+                    a += ['--epsilon', r.pick(['0.01', '0.5', '0.1'])]
+                if '-t' not in a and r.chance(0.4):
+                    a += ['-t', 'strict']
         elif k == 'detect':
             ops.append({'op': 'write_cs', 'client': 'U', 'path': 'hand.tdda',
                         'cs': gcs.near_miss(r, spec)})
@@ -134,6 +143,9 @@ def gen_c17(r, tier):
             ops.append({'op': 'cli', 'client': 'C', 'cmd': 'detect',
                         'argv': argv, 'input': inp, 'cs': 'hand.tdda',
                         'out': out})
+            if fmt == 'csv' and r.chance(0.2):
+                ops[-1]['argv'][1] = '-'
+                ops[-1]['stdin'] = True
         else:
             ops.extend(gen_fault(r, spec, inp))
     return {'config': {'frames': [spec]}, 'ops': ops}
